@@ -253,13 +253,14 @@ func doOutOp(ctx context.Context, conn *websocket.Conn, o outOp, payload []byte)
 		}
 		return w.Close()
 	case "writer":
+		prev, havePrev := lastWriters.Load(conn)
 		w, err := conn.Writer(ctx, typ)
 		if err != nil {
 			return err
 		}
 		lastWriters.Store(conn, w)
 		rest := payload
-		for _, c := range o.Chunks {
+		for i, c := range o.Chunks {
 			if c > len(rest) {
 				c = len(rest)
 			}
@@ -267,6 +268,21 @@ func doOutOp(ctx context.Context, conn *websocket.Conn, o outOp, payload []byte)
 				return err
 			}
 			rest = rest[c:]
+			if i == 0 && havePrev && o.Seed%3 == 0 {
+				// The handle of an earlier, finished message is used once more while THIS message is
+				// open (the deferred Close of the goroutine that wrote the earlier one runs now): it
+				// must be refused and must leave this message alone (defect D22: it ended it).
+				stale := prev.(io.WriteCloser)
+				for _, e := range []string{"C01", "C02"} {
+					evid.For(e).Class("stale-writer-handle-used-while-a-later-message-is-open", 1)
+				}
+				if err := stale.Close(); err == nil {
+					return fmt.Errorf("Close on the writer handle of an earlier, finished message returned nil while a later message was open")
+				}
+				if _, err := stale.Write([]byte("written through a stale handle")); err == nil {
+					return fmt.Errorf("Write on the writer handle of an earlier, finished message returned nil while a later message was open")
+				}
+			}
 		}
 		if len(rest) > 0 || len(o.Chunks) == 0 {
 			if _, err := w.Write(rest); err != nil {
